@@ -69,7 +69,12 @@ def c01(E, blt, opts, r):
     st = r['status']
     sig = arith_sig(E)
     if st.startswith('crash:'):
-        return [V_('c01-crash', "count raised %s\n%s" % (st[6:], r.get('exc_tb', '')), exception=st[6:].split('(')[0], **sig)]
+        # the state the count was left in: an elected candidate whose tally has been truncated to nothing
+        try:
+            ez = any(c.state == 'elected' and getattr(c.vote, '_value', None) == 0 for c in E.C)
+        except Exception:
+            ez = False
+        return [V_('c01-crash', "count raised %s\n%s" % (st[6:], r.get('exc_tb', '')), exception=st[6:].split('(')[0], elected_tally_zero=ez, **sig)]
     rule = rule_name(E)
     electable = [c for c in E.C if c.state != 'withdrawn' and not (rule == 'mpls' and c.isUndeclared)]
     nelect = len([c for c in E.C if c.state == 'elected'])
